@@ -38,7 +38,9 @@ type ScriptConn struct {
 	dlMu       sync.Mutex
 	// OnWrite, if set, runs at the start of every Write (before the octets are
 	// taken): a control point for "something happens as the peer is written to".
-	OnWrite   func()
+	OnWrite func()
+	// OnRead, if set, runs at the start of every Read.
+	OnRead func()
 	ReadCalls int
 	ZeroReads int
 }
@@ -54,6 +56,9 @@ func (c *ScriptConn) Feed(b []byte) { c.In = append(c.In, b...) }
 func (c *ScriptConn) Pos() int { return c.pos }
 
 func (c *ScriptConn) Read(p []byte) (int, error) {
+	if c.OnRead != nil {
+		c.OnRead()
+	}
 	c.ReadCalls++
 	if c.Closes > 0 {
 		return 0, net.ErrClosed
